@@ -86,6 +86,18 @@ func NewDirective(config DirectiveConfig) *Directive {
 		if dir.err = assertValidName(argName); dir.err != nil {
 			return dir
 		}
+		if dir.err = invariantf(
+			argConfig != nil,
+			`@%v args must be an object with argument names as keys.`, config.Name,
+		); dir.err != nil {
+			return dir
+		}
+		if dir.err = invariantf(
+			argConfig.Type != nil && IsInputType(argConfig.Type),
+			`@%v(%v:) argument type must be Input Type but got: %v.`, config.Name, argName, argConfig.Type,
+		); dir.err != nil {
+			return dir
+		}
 		args = append(args, &Argument{
 			PrivateName:        argName,
 			PrivateDescription: argConfig.Description,
